@@ -137,7 +137,8 @@ fn check_lossy(c: &mut Case, m: u8, mname: &str, d: &[u8], probe: &str) {
                 return;
             }
             // channel interleaving: stereo input with a constant left channel and a ramp right channel
-            if probe == "stereo-probe" && len >= 64 {
+            // (the transient probes only under the stereo selectors: a mono coder sees them as one wildly alternating channel)
+            if (probe == "stereo-probe" || (probe.starts_with("stereo-") && m & 0x80 != 0)) && len >= 64 {
                 let n = len / 4;
                 let (mut l_err, mut r_err) = (0i64, 0i64);
                 for i in 8..n {
@@ -233,6 +234,71 @@ fn main() {
             });
         }
     }
+    // the top of the range in every tier: "up to the largest configurable sector or single-unit file" — units large enough
+    // that a codec's internal block structure (bzip2's 100..900 kB blocks, LZMA dictionary, zlib window) is crossed
+    for &(m, mname) in LOSSLESS {
+        for (bi, &(len, class)) in [(700_001usize, "text"), (1usize << 21, "half"), (1_300_000usize, "litruns"), ((1usize << 21) + 1, "text")].iter().enumerate() {
+            let i = idx;
+            idx += 1;
+            if !run.want(i) {
+                continue;
+            }
+            if m == 0x08 && !thorough && bi >= 2 {
+                continue; // PKWare is slow; two large units per run in the quick tier
+            }
+            let mut rng = run.rng(i, 3);
+            run.case(i, &format!("{mname}|{class}|large-unit"), json!({"selector": mname, "class": class, "len": len}), |c| {
+                let d = gen_content(&mut rng, class, len);
+                c.count("triples", 1);
+                c.count("large_units", 1);
+                check_lossless(c, m, mname, class, &d);
+            });
+        }
+    }
+    // the legacy entry point has no session: identical calls must keep giving the identical answer however much the process
+    // has decompressed before (more than the 1 GiB per-session cap in total)
+    {
+        let i = idx;
+        idx += 1;
+        if run.want(i) {
+            let mut rng = run.rng(i, 4);
+            run.case(i, "legacy-entry|cumulative-output-over-session-cap", json!({"what": "560 x decompress() of one 2 MiB unit (zlib and sparse alternating)"}), |c| {
+                let d = gen_content(&mut rng, "half", 1 << 21);
+                let forms: Vec<(u8, Vec<u8>)> = [0x02u8, 0x20].iter().filter_map(|&m| compress(&d, m).ok().filter(|o| o.len() < d.len() && o[0] == m).map(|o| (m, o))).collect();
+                if forms.is_empty() {
+                    c.nontrivial = false;
+                    return;
+                }
+                let mut first_ok = vec![false; forms.len()];
+                let mut total = 0u64;
+                for round in 0..560usize {
+                    let k = round % forms.len();
+                    let (m, out) = &forms[k];
+                    match trap(|| decompress(&out[1..], *m, d.len())) {
+                        Ok(Ok(b)) if b == d => {
+                            first_ok[k] = true;
+                            total += b.len() as u64;
+                        }
+                        Ok(Ok(_)) => {
+                            c.violate("roundtrip-mismatch|legacy-entry|repeated-call", format!("decompress() call #{round} returned different bytes than the input"), json!({"round": round}));
+                            break;
+                        }
+                        Ok(Err(e)) => {
+                            if first_ok[k] {
+                                c.violate("own-output-rejected|legacy-entry|after-cumulative-output", format!("decompress() accepted this unit before and refuses the identical call #{round} after {total} bytes of output in the process: {e}"), json!({"round": round, "total": total, "err": e.to_string()}));
+                            }
+                            break;
+                        }
+                        Err(p) => {
+                            c.violate(format!("decompress-panic|legacy-entry|{}", p.sig()), format!("decompress panicked: {}", p.msg), json!({"round": round}));
+                            break;
+                        }
+                    }
+                }
+                c.count("legacy_cumulative_bytes", total);
+            });
+        }
+    }
     // selectors whose compressor is expected to refuse
     for &(m, mname) in COMPRESS_ONLY_ERR {
         let i = idx;
@@ -248,7 +314,7 @@ fn main() {
     }
     // lossy ADPCM
     for &(m, mname) in LOSSY {
-        for probe in ["sine", "stereo-probe", "random"] {
+        for probe in ["sine", "stereo-probe", "stereo-transient-left", "stereo-transient-right", "stereo-transients-both", "random"] {
             let i = idx;
             idx += 1;
             let mut rng = run.rng(i, 0);
@@ -257,6 +323,32 @@ fn main() {
                     let d: Vec<u8> = match probe {
                         "sine" => (0..len / 2).flat_map(|k| (((k as f32 * 0.05).sin() * 9000.0) as i16).to_le_bytes()).collect(),
                         "stereo-probe" => (0..len / 4).flat_map(|k| { let l = 1000i16; let r = ((k % 200) as i16 - 100) * 80; let mut v = l.to_le_bytes().to_vec(); v.extend(r.to_le_bytes()); v }).collect(),
+                        // loud onsets: sample-to-sample jumps far above the current step size, in one channel or both, the two
+                        // channels kept far apart (left positive, right negative) so a swap is unmistakable
+                        p if p.starts_with("stereo-transient") => {
+                            let (tl, tr) = (p != "stereo-transient-right", p != "stereo-transient-left");
+                            let mut lv = 300i32;
+                            let mut rv = -300i32;
+                            (0..len / 4)
+                                .flat_map(|k| {
+                                    if k > 0 && k % 37 == 0 && tl {
+                                        lv = 4000 + ((k as i32 * 7919) % 24000);
+                                    } else if k % 37 == 20 && tl {
+                                        lv = 300;
+                                    }
+                                    if k > 0 && k % 41 == 0 && tr {
+                                        rv = -(4000 + ((k as i32 * 104729) % 24000));
+                                    } else if k % 41 == 25 && tr {
+                                        rv = -300;
+                                    }
+                                    let l = (lv + (k as i32 % 5) * 10) as i16;
+                                    let r = (rv - (k as i32 % 7) * 10) as i16;
+                                    let mut v = l.to_le_bytes().to_vec();
+                                    v.extend(r.to_le_bytes());
+                                    v
+                                })
+                                .collect()
+                        }
                         _ => rng.bytes(len / 2 * 2),
                     };
                     c.count("triples", 1);
